@@ -282,6 +282,9 @@ func TestC17(t *testing.T) {
 	nrand := kit.Pick(4, 20)
 	r.Rapid("valid", kit.Pick(500, 20000), func(rt *rapid.T) {
 		st := gen.TypedSchema().Draw(rt, "schema")
+		if rapid.IntRange(0, 3).Draw(rt, "extendbuiltin") == 0 {
+			gen.ExtendBuiltin(rt, &st)
+		}
 		pieces := piecesOf(st, gen.Rand(rt))
 		layouts, moved := genLayouts(rt, pieces, nrand)
 		c := c17Case{Pieces: pieces, Layouts: layouts}
